@@ -49,6 +49,7 @@
   and completeness of the model parser for non-canonical spellings (differential: flag `ast`).
 -/
 import Proofs.GenTables
+import Proofs.C02
 import Proofs.Lemmas.GramXPath
 import Proofs.Lemmas.ParseGram
 import Proofs.Lemmas.ParseRender
@@ -772,5 +773,31 @@ example (c : Cfg) (e : Expr) (h : parseToks c [⟨.ncname ['a'], false⟩] = som
     parseToks c [⟨.p .lparen, false⟩, ⟨.p .lparen, true⟩, ⟨.ncname ['a'], false⟩,
       ⟨.p .rparen, true⟩, ⟨.p .rparen, true⟩] = some e :=
   redundant_parentheses c _ e false true (redundant_parentheses c _ e true true h)
+
+/-! ## from the characters of an expression to its value -/
+
+/-- **text_refines_spec** — the whole chain on one page.  Take any well-formed tree `e` with ordinary
+    names and write its canonical spelling as a STRING.  xsel's lexer and parser (`parseModel`) and
+    XPath 1.0's (`parseSpec`) read that string as the same tree `t` (= `normCtx e`), and evaluating
+    `t` the way the Go code does (`Model.run`) gives what the XPath 1.0 specification gives
+    (`Spec.runKF`: the specification with the one recorded deviation of `round`), up to the listing
+    order of a node-set — on every tree that satisfies the Cursor contract, from every start node, with
+    every environment whose node-set variables are in document order; `sumSafe` is the decidable side
+    condition on `sum()`/`lang()` explained in `C02`. -/
+theorem text_refines_spec (a : Arena) (h : wfb a = true) (env : Env) (henv : EnvOk a env)
+    (e : Expr) (hwf : wfE e = true) (hn : namesOk lexModel e = true)
+    (start : Nat) (hs : start < a.size) (hsum : sumSafe true (normCtx e) = true) :
+    ∃ t : Expr,
+      parseModel (spellToks (renderTop e)) = .ok t ∧
+      parseSpec (spellToks (renderTop e)) = .ok t ∧
+      Res.Equiv (Model.run a env start t) (Spec.runKF a env start t) :=
+  ⟨normCtx e, string_roundtrip_model e hwf hn,
+    string_roundtrip_spec e hwf (namesOk_model_spec e hn),
+    Xsel.C02.run_refines_spec' a h env henv (normCtx e) start hs hsum⟩
+
+/-- the side conditions of `text_refines_spec` hold for the sample tree `//p:a[last() < 2.5]/@b | "it's"` -/
+example : wfE sampleTree = true ∧ namesOk lexModel sampleTree = true ∧ sumSafe true (normCtx sampleTree) = true := by
+  refine ⟨by decide +kernel, by decide +kernel, ?_⟩
+  simp [sampleTree, normCtx, normBase, normCtxs, sumSafe, sumSafeL, ascending, sumArgAsc, Axis.isReverse]
 
 end Xsel.C08
